@@ -427,6 +427,10 @@ const TEXTS: &[&str] = &[
     "DELETE FROM t WHERE k = :k",
 ];
 
+fn rbytes(r: &mut Rng, lo: u64, hi: u64) -> Vec<u8> {
+    let n = r.range(lo, hi) as usize;
+    r.bytes(n)
+}
 fn rep_bytes(b: u8, n: usize) -> String {
     if n == 0 { "-".into() } else { format!("x{:02x}^{:x}", b, n) }
 }
@@ -453,7 +457,7 @@ fn gen_id(r: &mut Rng) -> String {
         2 => rep_bytes(r.below(256) as u8, *r.pick(&[65537usize, 70000, 131072])),
         3 => "-".into(),
         4 => hex_bytes(&r.bytes(1)),
-        5 => hex_bytes(&r.bytes(r.range(2, 300) as usize)),
+        5 => hex_bytes(&rbytes(r, 2, 300)),
         _ => hex_bytes(&r.bytes(16)),
     }
 }
@@ -462,7 +466,7 @@ fn gen_cell(r: &mut Rng) -> String {
         0 | 1 => "n".into(),
         2 => "u".into(),
         3 => "v-".into(),
-        4 => format!("v{}", hex_bytes(&r.bytes(r.range(20, 200) as usize))),
+        4 => format!("v{}", hex_bytes(&rbytes(r, 20, 200))),
         5 => {
             if r.chance(1, 10) {
                 format!("v{}", rep_bytes(r.below(256) as u8, r.range(1000, 70000) as usize))
@@ -472,7 +476,7 @@ fn gen_cell(r: &mut Rng) -> String {
         }
         // values that look like the null / unset markers or like lengths
         6 => format!("v{}", r.pick(&["ffffffff", "fffffffe", "00000000", "ff", "0000"])),
-        _ => format!("v{}", hex_bytes(&r.bytes(r.range(1, 12) as usize))),
+        _ => format!("v{}", hex_bytes(&rbytes(r, 1, 12))),
     }
 }
 /// value list: mostly small, sometimes a few hundred, rarely at the u16 boundary
@@ -520,7 +524,7 @@ fn gen_paging(r: &mut Rng) -> String {
     match r.below(10) {
         0 => "-".into(),
         1 => rep_bytes(r.below(256) as u8, *r.pick(&[65535usize, 65536, 100000])),
-        _ => hex_bytes(&r.bytes(r.range(1, 60) as usize)),
+        _ => hex_bytes(&rbytes(r, 1, 60)),
     }
 }
 /// query parameters for an explicit subset mask of the six optional parts
@@ -667,7 +671,7 @@ fn gen_auth(r: &mut Rng) -> String {
             let mut b = vec![0u8];
             b.extend_from_slice(b"cassandra");
             b.push(0);
-            b.extend_from_slice(&r.bytes(r.range(0, 24) as usize));
+            b.extend_from_slice(&rbytes(r, 0, 24));
             hex_bytes(&b)
         }
     };
